@@ -107,6 +107,70 @@ CHECKS = {
         design_ref="5 (C16)",
         note=E1_NOTE + " Only path-ordered keys are asserted (the ancestor merge orders unrelated branches by set iteration).",
     ),
+    "C04": dict(
+        engine="E3 ilv",
+        category="model_checking",
+        technique="stateless model checking of real threads: every interleaving of 2-3 workers at SQL-statement / commit granularity under a preemption bound (iterative context bounding), on a file database with SQLite lock waits modelled as blocking",
+        text="Two (three) real worker threads each running the real process_one() on a prepared state where several StartStage(D) are pending or both upstream CompleteStage are pending; AND, first-of, quorum joins and builder-made tasks. Every schedule with <=2 preemptions (quick; <=1 for the rarer scenarios and 3 workers) / <=3 (thorough) is executed; afterwards the queue is drained and: exactly one durable NOT_STARTED->RUNNING of D, each task of D ran once, one StartTask insert, one downstream StartStage insert, outcome equals the sequential one. CAS losses are counted so collisions are visible.",
+        design_ref="5 (C04), 3 (E3)",
+        note=E3_NOTE,
+    ),
+    "C07": dict(
+        engine="E3 ilv",
+        category="model_checking",
+        technique="stateless model checking of real threads at SQL-statement / commit granularity under a preemption bound: 2-3 read-modify-write writers through the public store API and engine-level handler pairs",
+        text="Writers: 2 writers (plain, transactional, mixed, with and without retry) with <=2 (quick) / <=3 (thorough) preemptions, 3 writers with <=1/<=2: successful saves read pairwise distinct versions, the final row holds every successful writer's change and nothing of a failed one, version = number of successful saves, retries always converge. Engine pairs: persistent SignalStage vs RunTask that suspends / vs StartStage claim / vs StartTask; two CompleteStage updating one quorum join; CancelStage vs CompleteTask: outcome must be one a sequential order can produce and both effects present.",
+        design_ref="5 (C07)",
+        note=E3_NOTE,
+    ),
+    "C08": dict(
+        engine="E4 ops + E3 ilv + E2 crash",
+        category="model_checking",
+        technique="explicit-state search over operation sequences of the real SqliteQueue against a dict reference model; stateless interleaving exploration of concurrent pollers; crash-image enumeration inside DLQ moves",
+        text="E4: every sequence of push / push-in-transaction / poll / ack / reschedule / extend / expire / advance / move-to-DLQ / sweep / replay up to depth 9 (quick) / 12 (thorough), max_attempts=2, deduplicated on the real queue's canonical state; after every operation the real tables equal the model, poll returns only eligible unheld messages and never misses one, every pushed message is in exactly one place, replay returns the payload unchanged. E3: 2-3 real pollers x 2-3 messages under <=3 preemptions: no double claim, nothing lost. E2: the image after every commit inside move_to_dlq / check_and_move_expired / replay_dlq / the processor's failing-handler path conserves every message; a poison message is handled exactly max_attempts times and parked.",
+        design_ref="5 (C08)",
+        note=E3_NOTE + " E4 trusts the dict model in checks/C08.py.",
+    ),
+    "C09": dict(
+        engine="E1 sched + E4 ops",
+        category="model_checking",
+        technique="explicit-state model checking of the real handlers with lost acks, worker restarts and filter rotation at any point, both negative-cache settings; exhaustive operation sequences on the real bloom filter",
+        text="All delivery orders x <=1 lost ack (quick; <=2 thorough) x <=1 restart x <=1 forced filter rotation, dedup_trust_negative_cache off and on (filter contents tracked in the state): whenever the delivered row id is already in processed_messages no handler is invoked and no task executes (>10k such redeliveries per quick run). Filter: every sequence of mark/hydrate/reset up to length 4 (5) over 6 ids and capacities 1..8: no false negative, authoritative only between hydrate and reset.",
+        design_ref="5 (C09)",
+        note=E1_NOTE,
+    ),
+    "C11": dict(
+        engine="E3 ilv + E1 sched",
+        category="model_checking",
+        technique="stateless model checking of real threads (sibling StartStage handlers, optionally a retention sweep thread) under a preemption bound with an invariant evaluated after every commit; explicit-state search over all delivery orders",
+        text="E3: StartStage(X)||StartStage(Y)[||StartStage(Z)][||claim retention sweep] for mutex and deferred-choice groups, <=2 preemptions for 2 threads, <=1 for 3 (quick) / <=3, <=2 (thorough): after EVERY commit at most one RUNNING stage per mutex key; after the drain every mutex member ran and never overlapped, exactly one choice member ever started, the others are CANCELED. E1: the same workloads under all delivery orders with the retention sweep (and a lost ack in thorough) at any point.",
+        design_ref="5 (C11)",
+        note=E3_NOTE + " max_stage_wait_retries=20 so the engine's 1-hour give-up does not race the mutex waiter.",
+    ),
+    "C18": dict(
+        engine="E1 sched + E2 crash (+E3 via C07)",
+        category="model_checking",
+        technique="explicit-state model checking of the real handlers with a persistent or transient signal injected in every reachable state; crash-point enumeration of suspend / resume runs",
+        text="Signal (persistent / transient) sent in every reachable state of A->gate->Z under all delivery orders with <=1 lost ack (quick; <=2 and a recovery sweep in thorough): without a signal the gate is durably SUSPENDED; a persistent signal is consumed exactly once, the suspending task runs suspend-then-resumed with the payload, buffer empty, workflow SUCCEEDED; a transient signal resumes iff the gate was durably SUSPENDED when it was handled. E2: every commit image of three runs (signal before start / with RunTask / after suspend) x 2 restart orders. The statement-level signal-vs-handler races are explored by C07's engine pairs.",
+        design_ref="5 (C18)",
+        note=E1_NOTE,
+    ),
+    "C19": dict(
+        engine="E5 enum",
+        category="exploration",
+        technique="exhaustive small-scope enumeration of stage records and message instances through the real store and both queue serialisers, compared field by field",
+        text="Every enum member and every optional field over {None,'',value,unicode}, 0-3 tasks, 27 JSON values in context/outputs (empty, nested, unicode incl. astral, quotes, control characters, 2^63, floats, 64 KB, deep nesting), one field varied at a time (pairs in thorough): store() -> retrieve() and retrieve_stage() field-by-field equal, task order kept, three read-modify-write rounds leave untouched fields and the sibling stage unchanged. Every message class x every field domain through queue.push and AtomicTransaction.push_message: same type and fields after poll, both serialisers write the same payload.",
+        design_ref="5 (C19)",
+        note="Small-scope hypothesis over the listed alphabets; only JSON-representable values are claimed; SQLite backend.",
+    ),
+    "C20": dict(
+        engine="E5 enum",
+        category="exploration",
+        technique="exhaustive small-scope enumeration of stage graphs against an independent DFS reference, and of grammar-generated / hostile condition expressions under a family of contexts",
+        text="All lists of <=3 stages over refs {a,b,c} (duplicates allowed) with requisites any subset of {a,b,c,zz} (4 stages with <=1 requisite in thorough): Workflow.create accepts exactly the graphs the reference accepts, raises only its own error types, topological_sort lists every stage after its requisites. ~8k expressions covering every supported and unsupported AST node kind to two operator levels plus ~60 malformed / hostile strings x 18 contexts: a value or ExpressionError, never another exception, never a call, never attribute access on a foreign object; _should_skip and _apply_split_logic never raise.",
+        design_ref="5 (C20)",
+        note="Small-scope hypothesis; CPython 3.12 ast.",
+    ),
 }
 
 NOT_YET = {
@@ -146,6 +210,12 @@ def main():
         "engines": [
             {"name": "E1 sched", "path": "vlib/e1.py", "serves_properties": sorted(p for p, c in CHECKS.items() if c["engine"].startswith("E1")),
              "kind_free_text": "explicit-state search over the real handlers; state = SQLite image, transition = one real engine call"},
+            {"name": "E3 ilv", "path": "vlib/e3.py", "serves_properties": sorted(p for p, c in CHECKS.items() if "E3" in c["engine"]),
+             "kind_free_text": "stateless interleaving explorer: real threads, baton scheduler at execute()/commit(), iterative context bounding, SQLite lock waits as blocking"},
+            {"name": "E4 ops", "path": "checks/C08.py, checks/C09.py", "serves_properties": sorted(p for p, c in CHECKS.items() if "E4" in c["engine"]),
+             "kind_free_text": "operation-sequence search of a real object against a plain-Python reference model"},
+            {"name": "E5 enum", "path": "checks/C19.py, checks/C20.py, checks/C16.py", "serves_properties": sorted(p for p, c in CHECKS.items() if "E5" in c["engine"]),
+             "kind_free_text": "exhaustive small-scope input enumeration"},
             {"name": "E2 crash", "path": "vlib/e2.py", "serves_properties": sorted(p for p, c in CHECKS.items() if "E2" in c["engine"]),
              "kind_free_text": "crash-point enumerator: image after every durable commit (commit hook on the real connection) x restart orders"},
         ],
